@@ -427,7 +427,7 @@ func TestC13Machine(t *testing.T) {
 // added last), O (OutputFromRoot)} with at most 2 trees; the first step is always N.
 func TestC13Exhaustive(t *testing.T) {
 	col := coll("C13", "exhaustive")
-	maxLen := pick(5, 6)
+	maxLen := pick(5, 7)
 	col.Rule = fmt.Sprintf("ALL histories of length <=%d (after an initial NewRoot) over {NewRoot, Add a|b to the root of tree 0|1, Add a|b to the last node of tree 0|1, OutputFromRoot(tree 0|1)}, <=2 trees; output compared with the model after every Output step", maxLen)
 	c13Enumerate(t, col, maxLen)
 	col.Exhaustive = true
